@@ -50,7 +50,7 @@ public:
             case F_NOTE_ON: o.a[0] = ch; o.a[1] = r.chance(0.8) ? (int64_t)r.below(128) : (int64_t)r.pick<int>({ 0, 1, 11, 12, 115, 116, 126, 127 }); o.a[2] = (int64_t)r.range(1, 127); break;
             case F_NOTE_OFF: o.a[0] = ch; o.a[1] = (int64_t)r.below(1000); break;
             case F_BEND: o.a[0] = ch; o.a[1] = r.chance(0.5) ? (int64_t)r.pick<int>({ 0, 1, 8191, 8192, 8193, 16382, 16383, 4096, 12288 }) : (int64_t)r.below(16384); break;
-            case F_RANGE: o.a[0] = ch; o.a[1] = (int64_t)r.pick<int>({ 0, 1, 2, 2, 7, 12, 24, 48, 127 }); o.a[2] = r.chance(0.35) ? (int64_t)r.below(100) : 0; break;
+            case F_RANGE: o.a[0] = ch; o.a[1] = (int64_t)r.pick<int>({ 0, 1, 2, 2, 7, 12, 24, 48, 127 }); o.a[2] = r.chance(0.35) ? (int64_t)r.below(100) : 0; o.a[3] = (int64_t)r.below(4); break;   // a[3]: order of the RPN select bytes / a preceding NRPN
             case F_PATCH: o.a[0] = ch; o.a[1] = (int64_t)r.below(128); break;
             case F_TICK: o.d = r.pick<double>({ 0.0, 0.01, 0.05, 0.3 }); break;
             case F_VIBRATO: o.a[0] = ch; o.a[1] = (int64_t)r.pick<int>({ 0, 0, 1, 64, 127 }); o.a[2] = (int64_t)r.below(2); break;
@@ -203,7 +203,9 @@ public:
             }
             case F_RANGE:
                 rangeMsb[ch] = (int)o.a[1]; rangeLsb[ch] = (int)o.a[2];
-                opn2_rt_controllerChange(dev, (OPN2_UInt8)ch, 101, 0); opn2_rt_controllerChange(dev, (OPN2_UInt8)ch, 100, 0);
+                if(o.a[3] & 2) { opn2_rt_controllerChange(dev, (OPN2_UInt8)ch, 99, 1); opn2_rt_controllerChange(dev, (OPN2_UInt8)ch, 98, 8); }   // an NRPN selected before
+                if(o.a[3] & 1) { opn2_rt_controllerChange(dev, (OPN2_UInt8)ch, 100, 0); opn2_rt_controllerChange(dev, (OPN2_UInt8)ch, 101, 0); }  // RPN 0, LSB first
+                else { opn2_rt_controllerChange(dev, (OPN2_UInt8)ch, 101, 0); opn2_rt_controllerChange(dev, (OPN2_UInt8)ch, 100, 0); }
                 opn2_rt_controllerChange(dev, (OPN2_UInt8)ch, 6, (OPN2_UInt8)o.a[1]); opn2_rt_controllerChange(dev, (OPN2_UInt8)ch, 38, (OPN2_UInt8)o.a[2]);
                 break;
             case F_PATCH: patch[ch] = (int)o.a[1] & 127; opn2_rt_patchChange(dev, (OPN2_UInt8)ch, (OPN2_UInt8)patch[ch]); break;
